@@ -159,11 +159,7 @@ func runC06(tier string) int {
 	r := harness.NewRun("C06", "exploration", tier, budget(tier, 50*time.Second, 12*time.Minute))
 	maxSlots, rotations := 3, []int{0, 1, 3, 5, 7, 9, 11}
 	if tier == "thorough" {
-		maxSlots, rotations = 4, []int{0, 3, 5, 8, 11}
-	}
-	completed := c06Enumerate(r, maxSlots, rotations, func(data []datum, dist []int, rot, clash int) { c06Eval(r, data, dist, rot, clash) })
-	if completed < maxSlots {
-		r.NotExhaustive(fmt.Sprintf("completed files with <= %d inline arguments of planned <= %d", completed, maxSlots))
+		maxSlots, rotations = 4, []int{0, 7} // 23^4 data assignments x 12 owner distributions x 2 rotations x 3 user-name variants
 	}
 	// the size dimension: files with K inline arguments of pairwise different content, for every K up to a bound
 	// far above the exhaustive one (numbering, sharing and ordering must not depend on how many there are)
@@ -220,6 +216,10 @@ func runC06(tier string) int {
 		r.NotExhaustive("long files not completed")
 	}
 	r.Set("long_files_max_inline_arguments", maxK)
+	completed := c06Enumerate(r, maxSlots, rotations, func(data []datum, dist []int, rot, clash int) { c06Eval(r, data, dist, rot, clash) })
+	if completed < maxSlots {
+		r.NotExhaustive(fmt.Sprintf("completed files with <= %d inline arguments of planned <= %d", completed, maxSlots))
+	}
 	r.Set("max_slots_completed", completed)
 	r.Set("datum_kinds", len(c06Data))
 	r.Set("contexts", c06Contexts)
